@@ -50,6 +50,8 @@ pub struct GenCfg {
     pub any_trace_order: bool,
     /// a child may name the same parent twice
     pub dup_parent: bool,
+    /// operations that create a remote child root from an extracted context (C11)
+    pub remote_children: bool,
 }
 
 impl GenCfg {
@@ -85,6 +87,7 @@ impl GenCfg {
             busy_wait_us: 0,
             any_trace_order: false,
             dup_parent: false,
+            remote_children: false,
         }
     }
 }
@@ -273,6 +276,14 @@ impl<'a> Gen<'a> {
                 push(&mut alts, Op::Finish { slot: sp.slot });
             }
         }
+        if c.remote_children && n_spans < c.max_spans {
+            for w3c in [false, true] {
+                for &sl in &live {
+                    push(&mut alts, Op::RootFromSpan { slot: n_spans as u32, name: format!("s{}", n_spans), of: sl, w3c });
+                }
+                push(&mut alts, Op::RootFromLocal { slot: n_spans as u32, name: format!("s{}", n_spans), w3c });
+            }
+        }
         if c.elapsed {
             for &sl in &live {
                 push(&mut alts, Op::Elapsed { slot: sl });
@@ -312,7 +323,7 @@ impl<'a> Gen<'a> {
                     }
                     s.spans.push(SpanInfo { slot: *slot, live: true, noop: false, root: true, cancelled: false });
                 }
-                Op::Child { slot, .. } | Op::ChildLocal { slot, .. } => {
+                Op::Child { slot, .. } | Op::ChildLocal { slot, .. } | Op::RootFromSpan { slot, .. } | Op::RootFromLocal { slot, .. } => {
                     s.spans.push(SpanInfo { slot: *slot, live: true, noop: false, root: false, cancelled: false })
                 }
                 Op::Noop { slot } => {
@@ -351,7 +362,12 @@ impl<'a> Gen<'a> {
             if c.observe {
                 s.ops.push((a, Op::ObserveLocal));
                 match op {
-                    Op::Root { slot, .. } | Op::Child { slot, .. } | Op::ChildLocal { slot, .. } | Op::Noop { slot } => {
+                    Op::Root { slot, .. }
+                    | Op::Child { slot, .. }
+                    | Op::ChildLocal { slot, .. }
+                    | Op::Noop { slot }
+                    | Op::RootFromSpan { slot, .. }
+                    | Op::RootFromLocal { slot, .. } => {
                         s.ops.push((a, Op::ObserveSpan { slot: *slot }))
                     }
                     _ => {}
